@@ -54,3 +54,6 @@ def run(F, rep):
     rep.run(dt_strings.hashn_table, F, rep, "C14.2")
     # base iteration by reference (`for b in &x`): exact, whatever iterator type implements it
     rep.run(lemmas.container_iter_lemmas, F, rep, "C14.6", conts=("string",), quick=(rep.tier != "thorough"))
+    # "never on how the value was built": an owned string made from a view (to_owned) must be the canonical representation of its bases —
+    # equality, order and hash compare the word vector
+    rep.run(lemmas.slice_exact_lemmas, F, rep, "C14.7", quick=True, only={"to_owned"})
